@@ -5,6 +5,7 @@ package fsd
 
 import (
 	"bytes"
+	"context"
 	"encoding/hex"
 	"fmt"
 	"io"
@@ -33,8 +34,8 @@ type PoolEntry struct{ Name, Hash string }
 
 var pool []PoolEntry
 
-// Pool returns four mailbox names: 0 and 1 share the 6-hex-digit (level 2) directory, 2 shares
-// only the 3-digit (level 1) directory with them, 3 is unrelated. Found by search over the
+// Pool returns seven mailbox names: 0 and 1 share the 6-hex-digit (level 2) directory, 2 shares
+// only the 3-digit (level 1) directory with them, 3..6 each have a first-level directory of their own. Found by search over the
 // real stringutil.HashMailboxName, so the shared-parent branches of removeDir are exercised.
 func Pool() []PoolEntry {
 	if pool != nil {
@@ -63,6 +64,19 @@ func Pool() []PoolEntry {
 	for _, n := range []string{a, b, c, "solo"} {
 		pool = append(pool, PoolEntry{n, stringutil.HashMailboxName(n)})
 	}
+	// three more, each below a first-level directory of its own (mailboxes that are "new" after a reopen)
+	used := map[string]bool{}
+	for _, p := range pool {
+		used[p.Hash[:3]] = true
+	}
+	for i := 0; len(pool) < 7; i++ {
+		n := "w" + strconv.Itoa(i)
+		h := stringutil.HashMailboxName(n)
+		if !used[h[:3]] {
+			used[h[:3]] = true
+			pool = append(pool, PoolEntry{n, h})
+		}
+	}
 	return pool
 }
 
@@ -81,7 +95,7 @@ func CheckPool(field string) bool { return field == PoolField() }
 // Op is one operation of a history.
 //
 //	a.<mb>.<tok>.<date>.<seedhex>.<rep>  deliver    s.<mb>.<h>  mark seen    r.<mb>.<h>  remove
-//	p.<mb>  purge    R  reopen in process    C.<cap>  reopen with another cap    X  real process restart (C10)
+//	p.<mb>  purge    v  visit    t  retention scan    R  reopen in process    C.<cap>  reopen with another cap    X  real process restart (C10)
 type Op struct {
 	Kind   string
 	Mb     int
@@ -198,10 +212,19 @@ func Delivery(mb int, o Op) *message.Delivery {
 
 // Do runs one operation and returns its projected result.
 func (s *Sess) Do(o Op) string {
-	if o.Kind == "C" {
+	switch o.Kind {
+	case "C":
 		s.Cap = o.Rep
 		s.Reopen()
 		return "-"
+	case "v": // VisitMailboxes on the store object under test
+		return "V=" + s.Visit()
+	case "t": // one pass of the real retention scanner (period 1 h) on the store object under test
+		rs := storage.NewRetentionScanner(config.Storage{RetentionPeriod: time.Hour}, s.Store)
+		if err := rs.DoScan(context.Background()); err != nil {
+			return "err"
+		}
+		return "ok"
 	}
 	name := Pool()[o.Mb].Name
 	switch o.Kind {
